@@ -8,7 +8,7 @@ import JjModel.Lemmas.RepoBasic
 -/
 namespace JjModel.Repo
 
-theorem flatMap_congr' {α β : Type} {f g : α → List β} {l : List α} (h : ∀ x ∈ l, f x = g x) :
+theorem flatMap_congr_on {α β : Type} {f g : α → List β} {l : List α} (h : ∀ x ∈ l, f x = g x) :
     l.flatMap f = l.flatMap g := by
   induction l with
   | nil => rfl
@@ -47,7 +47,7 @@ theorem expand_congr {m : Mapping} {pred : Rewrite → Bool} {rank : Nat → Nat
       | none => rfl
       | some rw =>
         simp only
-        apply flatMap_congr'
+        apply flatMap_congr_on
         intro t ht
         have := hac id rw hg t ht
         exact ih f2 t (by omega) (by omega)
@@ -63,7 +63,7 @@ theorem leaves_key {m : Mapping} {pred : Rewrite → Bool} {rank : Nat → Nat}
   unfold leaves
   conv => lhs; unfold expand
   simp only [hg]
-  apply flatMap_congr'
+  apply flatMap_congr_on
   intro t ht
   have := hac id rw hg t ht
   exact expand_congr hac _ _ t (by omega) (by omega)
